@@ -232,6 +232,7 @@ class Ppar(EventPattern):
             nexttime = queue.peek()[0]
             if nexttime > 0.0:
                 outevent = evt.silent(nexttime, inevent)
+                outevent['delta'] = nexttime  # Already stretched time.
                 inevent = yield outevent
                 now = nexttime
         while not queue.empty():
@@ -250,6 +251,7 @@ class Ppar(EventPattern):
                     # // That child stream ended, so rest until next one.
                     nexttime = queue.peek()[0]
                     outevent = evt.silent(nexttime - now, inevent)
+                    outevent['delta'] = nexttime - now  # Already stretched.
                     inevent = yield outevent
                     now = nexttime
                 else:
